@@ -408,11 +408,13 @@ impl<T: Send> Sender<T> {
   /// This is a zero-cost conversion. The `Drop` implementation of the original
   /// `Sender` is not called.
   pub fn to_async(self) -> AsyncSender<T> {
+    // a closed handle stays closed across the conversion
+    let closed = self.closed.load(Ordering::Relaxed);
     let shared = unsafe { std::ptr::read(&self.shared) };
     mem::forget(self);
     AsyncSender {
       shared,
-      closed: AtomicBool::new(false),
+      closed: AtomicBool::new(closed),
     }
   }
 
@@ -635,11 +637,13 @@ impl<T: Send> Receiver<T> {
   /// This is a zero-cost conversion. The `Drop` implementation of the original
   /// `Receiver` is not called.
   pub fn to_async(self) -> AsyncReceiver<T> {
+    // a closed handle stays closed across the conversion
+    let closed = self.closed.load(Ordering::Relaxed);
     let shared = unsafe { std::ptr::read(&self.shared) };
     mem::forget(self);
     AsyncReceiver {
       shared,
-      closed: AtomicBool::new(false),
+      closed: AtomicBool::new(closed),
       state: AtomicU8::new(STATE_WAITING),
       is_registered: false,
     }
@@ -829,11 +833,13 @@ impl<T: Send> AsyncSender<T> {
   /// This is a zero-cost conversion. The `Drop` implementation of the original
   /// `AsyncSender` is not called.
   pub fn to_sync(self) -> Sender<T> {
+    // a closed handle stays closed across the conversion
+    let closed = self.closed.load(Ordering::Relaxed);
     let shared = unsafe { std::ptr::read(&self.shared) };
     mem::forget(self);
     Sender {
       shared,
-      closed: AtomicBool::new(false),
+      closed: AtomicBool::new(closed),
     }
   }
 
@@ -1031,6 +1037,8 @@ impl<T: Send> AsyncReceiver<T> {
   /// This is a zero-cost conversion. The `Drop` implementation of the original
   /// `AsyncReceiver` is not called.
   pub fn to_sync(self) -> Receiver<T> {
+    // a closed handle stays closed across the conversion
+    let closed = self.closed.load(Ordering::Relaxed);
     if self.is_registered {
       let state_ptr = &self.state as *const AtomicU8;
       if self
@@ -1054,7 +1062,7 @@ impl<T: Send> AsyncReceiver<T> {
     mem::forget(self); // AtomicU8 has no destructor; safe to forget.
     Receiver {
       shared,
-      closed: AtomicBool::new(false),
+      closed: AtomicBool::new(closed),
     }
   }
 
